@@ -274,6 +274,20 @@ def check_extrema_consumers(ctx, db):
               'angles within %s rad of a multiple of 90 degrees are treated as axis-aligned: the bounding-box shortcut then rotates the corners of the child box by an oblique angle and reports a box that is too large' % tol)
 
 
+def check_dimensions(ctx, db):
+    """R-DIM: the box routines only combine coordinates with coordinates (sentinels 0 / +-DBL_MAX are polymorphic)"""
+    from .. import dims
+    seeds = {'min': 1, 'max': 1, 'point': 1, 'points': 1, 'origin': 1, 'pmin': 1, 'pmax': 1, 'lmin': 1, 'lmax': 1, 'rmin': 1, 'rmax': 1, 'a': 1, 'b': 1, 'min0': 1, 'max0': 1, 'offsets': 1, 'point_array': 1}
+    n = 0
+    for qn, mins in (('gdstk::Cell::bounding_box', 40), ('gdstk::Label::bounding_box', 8), ('gdstk::Polygon::bounding_box', 8)):
+        for f in db.fn(qn, all=True):
+            if f.body is None or not any(x.k in ('ForStmt', 'WhileStmt') for x in f.walk()):
+                continue
+            ctx.touch(f)
+            n += dims.check(ctx, f, seeds, min_sites=0)
+    ctx.require('R-DIM resolved sites', n, 56)
+
+
 def run(ctx):
     db = ctx.db
     check_aggregates(ctx, db)
@@ -282,10 +296,11 @@ def run(ctx):
     check_extrema_effect(ctx, db)
     check_init(ctx, db)
     check_extrema_consumers(ctx, db)
+    check_dimensions(ctx, db)
 
 
 MANIFEST = dict(
-    text='Decides structural necessary conditions of exact boxes/hulls for every hierarchy: both cell aggregators visit all five element arrays and the hull takes every repetition offset; every running-extremum update compares and assigns matching components, keeps one role per accumulator, covers min.x/min.y/max.x/max.y in each loop and feeds minima from min corners and maxima from max corners; every read of a cached hull/box is guarded by the matching valid flag of the same entry or follows recomputation by the matching function, and cache entries are stored under the cell\'s own name with exactly the computed flag; per-axis extreme offsets never feed a convex hull for Explicit repetitions; every box routine establishes the inverted box before any return; cache-less overloads are thin wrappers; every consumer of Repetition::get_extrema walks the whole list; the axis-aligned shortcut of Reference::bounding_box is taken only for exact multiples of 90 degrees. Hull correctness (qhull) and numeric extremes are not decided.',
+    text='Decides structural necessary conditions of exact boxes/hulls for every hierarchy: both cell aggregators visit all five element arrays and the hull takes every repetition offset; every running-extremum update compares and assigns matching components, keeps one role per accumulator, covers min.x/min.y/max.x/max.y in each loop and feeds minima from min corners and maxima from max corners; every read of a cached hull/box is guarded by the matching valid flag of the same entry or follows recomputation by the matching function, and cache entries are stored under the cell\'s own name with exactly the computed flag; per-axis extreme offsets never feed a convex hull for Explicit repetitions; every box routine establishes the inverted box before any return; cache-less overloads are thin wrappers; the box routines are dimensionally consistent (coordinates only meet coordinates); every consumer of Repetition::get_extrema walks the whole list; the axis-aligned shortcut of Reference::bounding_box is taken only for exact multiples of 90 degrees. Hull correctness (qhull) and numeric extremes are not decided.',
     note='Trusted: clang front end, gx, sa rules; Repetition::get_extrema semantics are C11\'s obligations.',
     technique='aggregate-completeness and flag-guard dominance rules over typed AST/CFG + running-extremum idiom algebra + who-may-flow effect rule',
     design='§4 C09')
